@@ -23,9 +23,9 @@ def make_grid(spec: dict):
     if fam == "cart":
         return pde.CartesianGrid(spec["bounds"], spec["shape"], periodic=spec["periodic"])
     if fam == "polar":
-        return pde.PolarSymGrid(spec["radius"], spec["shape"][0])
+        return pde.PolarSymGrid(tuple(spec["radius"]) if isinstance(spec["radius"], list) else spec["radius"], spec["shape"][0])
     if fam == "sph":
-        return pde.SphericalSymGrid(spec["radius"], spec["shape"][0])
+        return pde.SphericalSymGrid(tuple(spec["radius"]) if isinstance(spec["radius"], list) else spec["radius"], spec["shape"][0])
     if fam == "cyl":
         return pde.CylindricalSymGrid(
             spec["radius"], tuple(spec["bounds_z"]), tuple(spec["shape"]),
@@ -49,11 +49,20 @@ def spacing(spec: dict) -> np.ndarray:
         b = np.asarray(spec["bounds"], float)
         return (b[:, 1] - b[:, 0]) / np.asarray(spec["shape"], float)
     if fam in ("polar", "sph"):
-        return np.array([spec["radius"] / spec["shape"][0]])
+        r_in, r_out = radial_range(spec)
+        return np.array([(r_out - r_in) / spec["shape"][0]])
     if fam == "cyl":
         bz = spec["bounds_z"]
         return np.array([spec["radius"] / spec["shape"][0], (bz[1] - bz[0]) / spec["shape"][1]])
     raise ValueError(fam)
+
+
+def radial_range(spec: dict):
+    """(inner, outer) radius of a polar/spherical grid spec; ``radius`` may be a number or a pair."""
+    r = spec["radius"]
+    if isinstance(r, (list, tuple)):
+        return float(r[0]), float(r[1])
+    return 0.0, float(r)
 
 
 def space_dim(spec: dict) -> int:
@@ -92,6 +101,8 @@ def cell_volumes(grid, spec: dict) -> np.ndarray:
     if fam == "cart":
         return np.full(shape, float(np.prod(h)))
     edges = np.arange(shape[0] + 1) * h[0]
+    if fam in ("polar", "sph"):
+        edges = edges + radial_range(spec)[0]
     if fam == "polar":
         return math.pi * (edges[1:] ** 2 - edges[:-1] ** 2)
     if fam == "sph":
